@@ -486,6 +486,8 @@ class QuotV(Sym):
 
 
 def builtin_sum(ex, v, start=0):
+    if isinstance(v, SymSetV):
+        return sum_symset(ex, v, start)
     if isinstance(v, SetV):
         items = v.items
     elif isinstance(v, SeqV) and v.is_concrete_len():
@@ -655,9 +657,63 @@ def b_tuple(ex, v=None):
     return r
 
 
+class SymSetV:
+    """set(xs) of a sequence with symbolic elements"""
+
+    def __init__(self, seq):
+        self.seq = seq
+
+
+TIP_UNIVERSE = [1, 2, 4, 8, 16, 32, 64, 128]
+
+
+def sum_symset(ex, ss, start=0):
+    """sum(set(xs)) == sum over a finite universe U of v*[v in xs], valid when every element lies in U."""
+    seq = ss.seq
+    n = ops.seq_len(seq)
+    i = z3.Int(ex.p.fresh_name("su"))
+
+    def val(x):
+        return term(x, "int")
+
+    if seq.is_concrete_len():
+        items = seq.concrete_items()
+        if any(num_kind(x) != "int" for x in items):
+            raise Unsupported("sum(set()) of non-integers")
+        inU = z3.And(*[z3.Or(*[val(x) == u for u in TIP_UNIVERSE]) for x in items]) if items else z3.BoolVal(True)
+    else:
+        xi = ops.seq_get(ex, seq, Sym(i, "int"))
+        if num_kind(xi) != "int":
+            raise Unsupported("sum(set()) of non-integers")
+        inU = z3.ForAll([i], z3.Implies(z3.And(i >= 0, i < term(n, "int")), z3.Or(*[val(xi) == u for u in TIP_UNIVERSE])))
+    ex.p.solver.push()
+    ex.p.solver.add(z3.Not(inU))
+    r = ex.p.solver.check()
+    ex.p.solver.pop()
+    if r != z3.unsat:
+        raise Unsupported("sum(set(xs)): elements not provably inside the finite universe {1,2,4,...,128}")
+    used("sum(set(xs)) over xs in {1,2,4,..,128}: sum of the distinct values present")
+    total = start
+    for u in TIP_UNIVERSE:
+        if seq.is_concrete_len():
+            present = z3.Or(*[val(x) == u for x in seq.concrete_items()]) if seq.concrete_items() else z3.BoolVal(False)
+        else:
+            j = z3.Int(ex.p.fresh_name("sj"))
+            xj = ops.seq_get(ex, seq, Sym(j, "int"))
+            present = z3.Exists([j], z3.And(j >= 0, j < term(n, "int"), val(xj) == u))
+        total = ops.binop(ex, "+", total, ops.ite(ex, z3.simplify(present), u, 0) if not z3.is_true(z3.simplify(present)) and not z3.is_false(z3.simplify(present)) else (u if z3.is_true(z3.simplify(present)) else 0))
+    return total
+
+
 def b_set(ex, v=None):
     if v is None:
         return SetV([])
+    if isinstance(v, SeqV):
+        if not v.is_concrete_len():
+            return SymSetV(v.copy())
+        items = v.concrete_items()
+        if any(has_sym(x) for x in items):
+            return SymSetV(v.copy())
     if isinstance(v, ops.ops_Range) and not (isinstance(v.lo, int) and isinstance(v.hi, int)):
         return RangeSetV(v.lo, v.hi)
     return SetV(ops.dedupe(ex, ops.iter_concrete(ex, v)))
@@ -1095,7 +1151,7 @@ def call_method(ex, recv, name, args, kw):
     if isinstance(recv, Arr2V):
         return arr2_method(ex, recv, name, args, kw)
     if isinstance(recv, Arr0V):
-        if name == "flatten":
+        if name in ("flatten", "ravel"):
             return flatten(ex, recv, *(args or [kw.get("order", "C")]))
         if name == "shape":
             return SeqV.of("tuple", [])
@@ -1143,7 +1199,7 @@ def seq_method(ex, v: SeqV, name, args, kw):
     if name == "extend":
         ops.list_extend(ex, v, args[0])
         return None
-    if name == "flatten":
+    if name in ("flatten", "ravel"):
         order = args[0] if args else kw.get("order", "C")
         return flatten(ex, v, order)
     if name == "copy":
@@ -1267,7 +1323,7 @@ def _dim_any(x):
 
 
 def arr2_method(ex, a: Arr2V, name, args, kw):
-    if name == "flatten":
+    if name in ("flatten", "ravel"):
         order = args[0] if args else kw.get("order", "C")
         return flatten(ex, a, order)
     if name in ("copy", "astype"):
